@@ -187,6 +187,8 @@ func TestVerifC01(t *testing.T) {
 			regs := w.cl.CreateTable("t", splits, hosts)
 			w.cl.CreateTable("tt", [][]byte{{','}}, hosts[1:])  // same-prefixed sibling
 			w.cl.CreateTable("n:t", [][]byte{{0}}, hosts[2:])   // namespaced sibling
+			w.cl.CreateTable("hbase:metadata", [][]byte{{'m'}}, hosts[:2]) // user tables whose names extend / are extended by the catalog's
+			w.cl.CreateTable("hbase:met", nil, hosts[1:])
 			w.c = newSimClient(w.cl, RpcQueueSize(1+ci%3))
 			order := rng.Perm(len(cs.Owners))
 			for oi, idx := range order {
@@ -219,6 +221,8 @@ func TestVerifC01(t *testing.T) {
 				if oi%5 == 0 { // siblings in between: same key, other tables
 					w.call("get", "tt", key, nil)
 					w.call("put", "n:t", key, nil)
+					w.call(c01ops[oi%len(c01ops)], "hbase:metadata", key, key)
+					w.call("get", "hbase:met", key, nil)
 				}
 			}
 			w.c.Close()
@@ -250,7 +254,7 @@ func TestVerifC01(t *testing.T) {
 			for _, h := range hosts {
 				w.cl.AddServer(h)
 			}
-			tables := []string{"t", "tt", "n:t", "t-x"}
+			tables := []string{"t", "tt", "n:t", "t-x", "hbase:metadata", "hbase:met"}
 			splitsOf := map[string][][]byte{}
 			for _, tb := range tables {
 				m := map[string]bool{}
